@@ -154,7 +154,14 @@ TUndo ==
   /\ Post(E.r)
 
 (* an injected storage failure inside the undo transaction: nothing changed *)
-TUndoFail == IsEvent("Undo") /\ E.res = "injected" /\ PostNow(E.r) /\ UNCHANGED vars
+(* ... or, if the failure hit the working-set rebuild that follows a successful undo (a second *)
+(* transaction), the undo itself is committed although the call reports the error             *)
+TUndoFail ==
+  /\ IsEvent("Undo") /\ E.res = "injected" /\ JOpsOK(E.undo)
+  /\ \/ PostNow(E.r) /\ UNCHANGED vars
+     \/ /\ UndoResult(db[E.r], JOps(E.undo)) = "true"
+        /\ CommitReversed(E.r, JOps(E.undo))
+        /\ Post(E.r)
 
 (* expire_tasks: the operations appended are exactly the deletions the         *)
 (* specification prescribes                                                   *)
